@@ -162,8 +162,7 @@ func init() {
 		// indexes published more than once by the same builder (BuildIndex, more documents, BuildIndex, BuildIndex):
 		// only panic-freedom is checked here ("any built index"); the answers of such indexes are not claimed
 		extra: func(tier string, seed uint64, outdir string) (map[string]interface{}, []string) {
-			var viol []string
-			calls := 0
+			calls, viol := compileFaultProbe()
 			for _, kind := range []string{"kgroups", "compact"} {
 				c := eCase{Kind: kind, Policy: "skip", Configs: map[int]string{1: "ac_matcher", 2: "ext_range"}, Parsers: map[int]string{4: "number"}}
 				restore := installParsers(c.Parsers)
